@@ -112,6 +112,11 @@ class C15(Property):
             step["from1"] = rng.chance(0.6)
             step["idx_as"] = rng.pick(["array", "list", "file"])
             step["idx_path"] = TXT[1]
+            prev = world.model.get("last_remove")
+            if prev is not None and max(prev["idx"]) < n and len(prev["idx"]) < n and rng.chance(0.5):
+                # the caller keeps its index array around and passes the very same object again
+                step.update(idx=list(prev["idx"]), from1=prev["from1"], idx_as="array", reuse=True, sess=prev["sess"])
+            world.model["last_remove"] = {"idx": step["idx"], "from1": step["from1"], "sess": step["sess"]}
         elif op == "split":
             step["out"] = rng.pick([None, None] + PREFIXES)
         elif op == "flip2":
@@ -235,7 +240,13 @@ class C15(Property):
                 raise Skip()
             given = [i + 1 for i in idx] if step["from1"] else list(idx)
             if step["idx_as"] == "array":
-                iarg = np.array(given)
+                pool = world.session(step["sess"]).setdefault("_args", {})
+                key = "idx:%r:%r" % (given, step["from1"])
+                if step.get("reuse") and key in pool:
+                    iarg = pool[key]
+                    world.probes["argument_object_reused"] += 1
+                else:
+                    iarg = pool[key] = np.array(given)
             elif step["idx_as"] == "list":
                 iarg = list(given)
             else:
